@@ -63,6 +63,16 @@ CLAIMS = {
              "vfs reads); OS scheduler fairness, tokio blocking pool and salsa internals are assumed.",
         tech="Lean 4 proof (invariant + ranking function over a parametric transition system) + schedule replay on the real server",
         ref="DESIGN.md §7 C08"),
+    "C09": dict(
+        text="Lean theorem location_denotes: a byte span of the text of the document a response names, converted to LSP positions "
+             "with that text's line table and read back against the same text, is the same span (composition of C10's round "
+             "trip); wrong_text_differs is the witness behind the repaired defect. The check compares every range of every "
+             "response kind (definition, references, documentSymbol, foldingRange, documentLink, inlayHint) and of the published "
+             "diagnostics of the real server with the ide-level span converted against the named document by a reference mapper "
+             "that is itself validated against the Lean LineIndex model on every text of the run.",
+        note="Thin on the Lean side by design (the choice of line table per handler is code, tied by correspondence only).",
+        tech="Lean 4 proof (composition of the C10 round trip) + JSON-level correspondence on multi-file workspaces with differing line structure",
+        ref="DESIGN.md §7 C09"),
     "C10": dict(
         text="Lean theorems for all texts: roundtrip (every char-boundary offset converts to a position and back), "
              "boundary_has_position (totality), line_contains, column_is_utf16, only LF/CR/CRLF break lines, clamp, "
@@ -73,6 +83,24 @@ CLAIMS = {
              "documented in Props/C10.lean.",
         tech="Lean 4 proof (generalised scan-state induction) + exhaustive-small differential correspondence",
         ref="DESIGN.md §7 C10"),
+    "C11": dict(
+        text="Lean theorems on the session/publish model for every history of document opens/changes: converges (after the last "
+             "update the client's view of each workspace file is the diagnostics of the final state; every other document has no "
+             "entry or an empty one) and versions_monotone; diagnostics are an arbitrary function of the observable inputs. The "
+             "notification streams of scripted sessions on the real server (until quiescence, detected through the hook's task "
+             "counters) are compared with the model's final view and with the reference.",
+        note="Model: Session.lean over Host.lean; updates are modelled as running to completion one after the other (justified by C08's "
+             "wait-for-snapshots order).",
+        tech="Lean 4 proof (invariants over session histories) + notification-stream correspondence on the real server",
+        ref="DESIGN.md §7 C11"),
+    "C12": dict(
+        text="Lean theorems for every session: buffers_win (each workspace file is analysed with overlay(disk, editor buffers), also "
+             "when reached only through an include), opened_uses_latest_buffer, unopened_uses_disk. Sessions over a root and two "
+             "included files whose disk and editor texts differ are run on the real server over a temp directory; the text "
+             "analysed for each workspace file is identified through its class name.",
+        note="Model: Session.lean/Host.lean vs server.rs/vfs.rs/file_system.rs; std::fs assumed.",
+        tech="Lean 4 proof (content-tracks-overlay invariant) + session correspondence on the real server",
+        ref="DESIGN.md §7 C12"),
     "C14": dict(
         text="Lean theorem lex_conforms: for every list of well-formed spec-level tokens (LexSpec.lean, written from the TableGen "
              "Programmer's Reference: identifiers incl. digit-leading, keywords, decimal/hex/binary integers in range, strings with "
